@@ -20,6 +20,10 @@ func init() {
 		installChildSeams()
 		return
 	default:
+		// the harness decides the locale of every process it starts; its own in-process runs see none
+		for _, v := range []string{"LANG", "LANGUAGE", "LC_ALL", "LC_CTYPE", "LC_MESSAGES", "LC_COLLATE"} {
+			os.Unsetenv(v)
+		}
 		os.Exit(verifMain())
 	}
 }
